@@ -202,3 +202,43 @@ Theorem C04_udp_examples :
    ex_uparse (splice 72 2 [1; 2] ex_dgram) = ex_uparse ex_dgram).
 Proof. exact (conj ex_udp_genuine ex_udp_trunc_ext). Qed.
 Print Assumptions C04_udp_examples.
+
+(* reflection: both directions of a session share the key and the session id, so a box sealed by the receiver's OWN
+   side opens (UDP: explicit nonce; TCP: behind a rewritten nonce header).  Session.input refuses it by its
+   authenticated type: for EVERY received byte stream and EVERY list of received datagrams, whatever reaches the
+   application's queue of a session with role [client] was not sealed by that role. *)
+Theorem C04_reflection_refused :
+  forall (open : list N -> list N -> option (list N)) (parse_meta : list N -> option minfo)
+         (le_decode : leparams -> N -> list N -> option (list N)) (client : bool) (sid : N),
+    (forall s' : list N,
+       Forall (fun r : rseg => own_side client (mi_proto (fst r)) = false)
+              (session_in client sid (fst (feed open parse_meta le_decode r_init s')))) /\
+    (forall ds : list (list N),
+       Forall (fun r : rseg => own_side client (mi_proto (fst r)) = false)
+              (session_in client sid (udp_recv_all open parse_meta le_decode ds))).
+Proof. exact reflection_refused. Qed.
+Print Assumptions C04_reflection_refused.
+
+(* non-vacuity: with the shared key in the table the client's receiver OPENS its own second segment behind its own
+   nonce + 1, and the session hands nothing to the application; the genuine server stream is handed on completely *)
+Theorem C04_reflection_example :
+  fst (feed ex_open2 (meta_parse_c ex_now) le_decode_id r_init ex_reflect) = [ex_deliver ex_c2] /\
+  session_in true 77 (fst (feed ex_open2 (meta_parse_c ex_now) le_decode_id r_init ex_reflect)) = [] /\
+  session_in true 77 (fst (feed ex_open2 (meta_parse_c ex_now) le_decode_id r_init ex_stream)) = map ex_deliver ex_segs.
+Proof. exact ex_reflect_opens_but_refused. Qed.
+Print Assumptions C04_reflection_example.
+
+(* UDP release: for every sender payload list, every order of arrival of genuine sequenced segments (any of them
+   missing, duplicated, late) and every position of the close: the application's queue is exactly the first
+   u_next payloads - nothing behind a missing sequence number is ever released, also not by a close *)
+Theorem C04_udp_no_release_across_gap :
+  forall (sent : list (list N)) (evs : list uevent),
+    Forall (genuine sent) evs -> u_q (u_run evs) = firstn (u_next (u_run evs)) sent.
+Proof. exact udp_no_release_across_gap. Qed.
+Print Assumptions C04_udp_no_release_across_gap.
+
+Theorem C04_udp_gap_example :
+  u_q (u_run [UArrive 0 [1]; UArrive 2 [3]; UArrive 3 [4]; UClose; UArrive 1 [2]]) = [[1]] /\
+  u_q (u_run [UArrive 0 [1]; UArrive 2 [3]; UArrive 3 [4]; UArrive 1 [2]; UClose]) = [[1]; [2]; [3]; [4]].
+Proof. exact ex_gap. Qed.
+Print Assumptions C04_udp_gap_example.
